@@ -45,7 +45,7 @@ func init() {
 			if vpB(c.In, "struct") {
 				return fmt.Sprint("struct", c.In["endpoint"], c.In["spelling"], c.In["preserve"], c.In["kind"], c.In["claim"], src == "basic")
 			}
-			return fmt.Sprint(vpJSON(c.In["flags"]), c.In["store"], src == "basic" || src == "form")
+			return fmt.Sprint(vpJSON(c.In["flags"]), c.In["store"], src == "basic" || src == "form", src == "cookie_minimal")
 		})
 		vpRunGroups(keys, groups, env.seed, func(rng *mrand.Rand, key string, cs []*vpCase) {
 			in0 := cs[0].In
@@ -60,6 +60,7 @@ func init() {
 			if vpB(fl, "pw") {
 				cfg.BasicPw = vpBasicPw
 			}
+			cfg.CookieMinimal = src0 == "cookie_minimal"
 			structured := vpB(in0, "struct")
 			if structured {
 				// one header, spelled the way the operator wrote it, in the structured option format
@@ -127,6 +128,9 @@ func init() {
 				switch src {
 				case "cookie", "cookie_bypass":
 					ok = loginAs("alice")
+				case "cookie_minimal":
+					ok = loginAs("alice")
+					sess["at"], sess["it"] = "", "" // the minimal cookie carries no tokens
 				case "cookie_nogrp":
 					ok = loginAs("nogrp")
 				case "cookie_emptygrp":
